@@ -22,8 +22,8 @@ ASSUMPTIONS = [
     "no ACL, implicit defaults off, add_comments off",
     "if both front ends raise the same exception type for an input they are counted as agreeing (exceptions_agreed)",
 ]
-FLOORS = {"quick": {"pairs_compared": 500, "nonempty_patches": 300, "file_workers_compared": 150, "file_workers_concrete_model": 80, "equal_config_pairs": 300},
-          "thorough": {"pairs_compared": 20000, "nonempty_patches": 12000, "file_workers_compared": 150, "file_workers_concrete_model": 80, "equal_config_pairs": 300}}
+FLOORS = {"quick": {"pairs_compared": 500, "nonempty_patches": 300, "file_workers_compared": 150, "file_workers_concrete_model": 80, "equal_config_pairs": 300, "device_workers_compared": 150, "device_workers_safe_differs_from_full": 40},
+          "thorough": {"pairs_compared": 20000, "nonempty_patches": 12000, "file_workers_compared": 150, "file_workers_concrete_model": 80, "equal_config_pairs": 300, "device_workers_compared": 150, "device_workers_safe_differs_from_full": 40}}
 EXTRA_MODELS = {"huawei": ["Huawei CE6870", "Huawei NE40E-X8", "Huawei Quidway S5300"], "huawei ce": ["Huawei"], "cisco": ["Cisco Catalyst 2960"],
                 "nexus": ["Cisco Nexus 3432"], "asr": ["Cisco XRv"], "iosxr": ["Cisco ASR 9010"]}
 
@@ -32,6 +32,7 @@ def plan(tier, seed):
     n = 8 if tier == "quick" else 16
     specs = [{"mode": "pairs", "tier": tier, "seed": seed, "shard": k, "nshards": n} for k in range(n)]
     specs.append({"mode": "files", "tier": tier, "seed": seed})
+    specs.append({"mode": "workers", "tier": tier, "seed": seed})
     return specs
 
 
@@ -251,7 +252,84 @@ def run_files(spec, acc):
         shutil.rmtree(d, ignore_errors=True)
 
 
+def run_workers(spec, acc):
+    """the device front ends as the CLI runs them (`annet patch` / `annet diff` workers over a loader, generators and the device text)
+    against the composition they wrap, with and without --acl-safe"""
+    from annet import api
+    from annet.annlib.patching import strip_unchanged
+    from annet.vendors import registry_connector
+    from vf import corpus
+    from vf import harness_gen as H
+    from vf.ref import diff as RD
+    rng = random.Random("C16/workers/%s" % spec["seed"])
+    cps = load_corpus()
+    rng.shuffle(cps)
+    limit = 60 if spec["tier"] == "quick" else len(cps)
+
+    def norm3(d):
+        return [(getattr(op, "name", str(op)), row, norm3(ch)) for op, row, ch, _ in (d or [])]
+
+    def canon(d):
+        return RD.canon(norm3(d))
+    for s, hw, old, new in cps[:limit]:
+        v = registry_connector.get().match(hw)
+        if v.NAME == "pc":
+            continue
+        fmt = v.make_formatter()
+        dev = H.FakeDevice(hw)
+        old_text = fmt.join(old)
+        import re as _re
+        pnew = plain(new)
+        clean = lambda r: bool(_re.fullmatch(r"[A-Za-z][A-Za-z0-9_-]*", r.split()[0]))
+        rows_a = [x for i_, x in enumerate(pnew) if i_ % 2 == 0 and clean(x[0])]
+        rows_b = [x for x in pnew if x not in rows_a]
+        words_a = sorted({x[0].split()[0] for x in rows_a})
+        acl_a = "\n".join("%s ~\n    ~ %%global\n%s\n    ~ %%global" % (w_, w_) for w_ in words_a) or "nothing-at-all"
+        all_words = sorted({r.split()[0] for r in list(old) + list(new) if clean(r)})
+        for safe, filt in ((False, False), (True, False), (False, True), (True, True)):
+            # two generators: a safe one owning every second top-level row (ACL = safe ACL = the first words of its rows) and an
+            # unsafe one owning the rest (ACL: everything); --filter-acl narrows to a random half of the first words
+            gens = [H.make_partial("GenSafe", v.NAME, acl_a, H.tree_runner(rows_a), acl_safe_text=acl_a),
+                    H.make_partial("GenRest", v.NAME, "~ %global", H.tree_runner(rows_b))]
+            ftext = None
+            if filt:
+                fw = [w_ for w_ in all_words if rng.random() < 0.5] or all_words[:1]
+                ftext = "\n".join("%s ~\n    ~ %%global\n%s\n    ~ %%global" % (w_, w_) for w_ in fw) or None
+            w = {"workers": True, "sample": s[0], "model": hw.model, "acl_safe": safe, "filter_acl": ftext}
+            try:
+                res = H.old_new(dev, gens, old_text, add_implicit=True, acl_safe=safe, no_acl_exclusive=True, filter_acl_text=ftext)
+                if res.err is not None:
+                    raise res.err
+                ddiff, dpatch = api._diff_and_patch(dev, res.get_old(safe), res.get_new(safe), res.get_acl_rules(safe), res.filter_acl_rules, False)
+                exp_text = api._format_patch_blocks(dpatch, hw, "  ") if dpatch else None
+            except Exception as e:
+                acc.count("workers_skipped_%s" % type(e).__name__)
+                continue
+            try:
+                got = H.run_patch_worker(dev, gens, old_text, acl_safe=safe, no_acl_exclusive=True, filter_acl_text=ftext)
+                gdiff = H.run_diff_worker(dev, gens, old_text, acl_safe=safe, no_acl_exclusive=True, filter_acl_text=ftext)
+            except Exception as e:
+                acc.violation("C16/worker-exception/%s" % type(e).__name__, "a device-mode worker raised where the composition it wraps does not", dict(w, error=repr(e)[:300]))
+                continue
+            acc.count("device_workers_compared")
+            if safe and plain(res.get_new(True)) != plain(res.get_new(False)):
+                acc.count("device_workers_safe_differs_from_full")
+            acc.case(["workers", s[0], safe, ftext], nontrivial=bool(exp_text))
+            got_text = got[0][1] if got else None
+            if got_text != exp_text:
+                acc.violation("C16/patch-worker-differs", "the `annet patch` worker prints another patch than _diff_and_patch gives for the same front-end result and options",
+                              dict(w, worker=(got_text or "").split("\n")[:30], expected=(exp_text or "").split("\n")[:30]))
+                continue
+            if canon(gdiff) != canon(ddiff):
+                acc.violation("C16/diff-worker-differs", "the `annet diff` worker reports other diff entries than the diff the patch is built from",
+                              dict(w, worker=canon(gdiff), expected=canon(ddiff)))
+
+
 def run_shard(spec, acc):
+    if spec["mode"] == "workers":
+        return run_workers(spec, acc)
+    if spec["mode"] == "replay" and spec["witness"].get("workers"):
+        return run_workers({"tier": "quick", "seed": 0}, acc)
     if spec["mode"] == "replay":
         from annet.annlib.netdev.views.hardware import HardwareView
         w = spec["witness"]
